@@ -12,7 +12,8 @@
 (*         | v1unknown | v2local (valid, announcing no address)            *)
 (*   src   the source address announced in the header: ipA | ipA2 (same IP *)
 (*         as ipA, other port) | ipB | ip6 | ip6c (IPv6, low 32 bits as   *)
-(*         ipA's: another address)                                         *)
+(*         ipA's: another address) | ip4m, ip4n (two IPv4 clients reported *)
+(*         in IPv4-mapped form ::ffff:a.b.c.d: two addresses)              *)
 (*   kind  status | glance (status without the Ping, then hangs up) | login*)
 (***************************************************************************)
 EXTENDS Integers, Sequences, FiniteSets, TLC
@@ -26,7 +27,7 @@ EXTENDS Integers, Sequences, FiniteSets, TLC
 (* is closed unserved.  Serving it on the budget of the balancer is neither: the header does announce a source address.              *)
 Readings == {"peer", "invalid"}
 \* the IP (without port) behind an address label
-IpOf(l) == CASE l \in {"ipA", "ipA2"} -> "A" [] l = "ipB" -> "B" [] l = "ip6" -> "6" [] l = "ip6c" -> "6c" [] l = "p1" -> "P1" [] l = "p2" -> "P2" [] OTHER -> l
+IpOf(l) == CASE l \in {"ipA", "ipA2"} -> "A" [] l = "ipB" -> "B" [] l = "ip6" -> "6" [] l = "ip6c" -> "6c" [] l = "ip4m" -> "4m" [] l = "ip4n" -> "4n" [] l = "p1" -> "P1" [] l = "p2" -> "P2" [] OTHER -> l
 HeaderOk(proxy, hdr) == \/ (hdr \in {"v1", "v1unknown"} /\ proxy \in {"v1", "both"})
                         \/ (hdr \in {"v2", "v2local", "v2dgram"} /\ proxy \in {"v2", "both"})
 Addressless(hdr) == hdr \in {"v1unknown", "v2local"}
